@@ -62,7 +62,7 @@ PROPS["C14"] = {
     "level": "fault_enumeration",
     "quick_runs": 240, "quick_budget_s": 150, "thorough_budget_s": 600,
     "rule": "one run = one sampled world (store, provider personality incl. the Keycloak flavour with JWT access tokens and 11 wrongly typed role-claim kinds, PKCE, refresh-token rotation, signing-key rotation) + one flow "
-            "{login, login with profile lookup, bearer request, refresh, refresh with profile lookup, plain-OAuth2 login, plain re-validation, login / refresh through the Google provider, back-channel logout, login through the Azure AD provider with a Graph-style profile document (mail / otherMails / userPrincipalName, +7 wrongly typed documents)} (profile flows: the "
+            "{login, login with profile lookup, bearer request, refresh, refresh with profile lookup, plain-OAuth2 login, plain re-validation, login / refresh through the Google provider, back-channel logout, login through the Azure AD provider with a Graph-style profile document (mail / otherMails / userPrincipalName, +7 wrongly typed documents), login through the login.gov provider (private_key_jwt client, key set fetched at every login)} (profile flows: the "
             "ID token lacks a drawn non-empty subset of email / email_verified / groups / preferred_username); the flow's IdP-call sequence is "
             "recorded fault-free, then re-executed once for EVERY position x EVERY applicable response kind (11 transport kinds, 64 Byzantine token "
             "responses incl. every subset of its five members omitted, 3 JWKS contents, 7 profile contents), each persistent and transient, each with a fresh browser, followed by a follow-up request and a final honest flow; "
@@ -126,7 +126,7 @@ PROPS["C03"] = {
 PROPS["C05"] = {
     "level": "exploration",
     "quick_runs": 1200, "quick_budget_s": 150, "thorough_budget_s": 600,
-    "rule": "one run = one world (code-challenge method none/S256/plain x skip-nonce x csrf-per-request x encode-state x store) + 2-5 sequential and overlapping logins "
+    "rule": "one run = one world (code-challenge method none/S256/plain x skip-nonce x csrf-per-request x encode-state x store; a quarter of the worlds loaded through the alpha-config channel: flags -> the product's own converter -> YAML -> merge) + in 30% of the runs a code-injection race (login B presents login A's code while A's callback is in flight, every IdP call interleaved by the tape: a session needs a token request of its own with its own verifier, one code never yields two sessions) + 2-5 sequential and overlapping logins "
             "in one browser, each completed under a seeded IdP nonce behaviour {honest, another login's nonce, empty, absent, unhashed-looking, the raw nonce, replay of an "
             "earlier ID token, hash of the state nonce}; the FakeIdP checks code_verifier against the challenge recorded for that code (RFC 7636, independent implementation); "
             "oracles: session => honest nonce (checking on); every authorization request has challenge+method, challenge derived from the login's verifier, verifier 43-128 "
@@ -139,7 +139,7 @@ PROPS["C05"] = {
 PROPS["C04"] = {
     "level": "exploration",
     "quick_runs": 800, "quick_budget_s": 150, "thorough_budget_s": 600,
-    "rule": "one run = one world (keys via discovery / static JWKS URL / public-key file, audience claim aud, azp or the lists aud,azp / azp,aud (the first claim present decides), extra audience, an extra JWT issuer with its own key and audience, e-mail claim, groups claim, "
+    "rule": "(12% of the runs: 2-3 users whose ID tokens lack a drawn subset of e-mail / groups / user name log in and later refresh CONCURRENTLY on 1-2 replicas, every identity-provider call incl. the profile lookups interleaved by the tape; every session must carry its own user's profile values. Served bearer tokens are presented again 2 s after their expiry (20-second tokens) and, in half of the runs, days later: never served.) one run = one world (keys via discovery / static JWKS URL / public-key file, audience claim aud, azp or the lists aud,azp / azp,aud (the first claim present decides), extra audience, an extra JWT issuer with its own key and audience, e-mail claim, groups claim, "
             "allow-unverified-email, store) + 12-23 ID tokens minted by a Byzantine FakeIdP from orthogonal knobs (signing key: right / second published / foreign / "
             "alg none / HS256 keyed with the public key / foreign key under a published kid; iss: right / other / suffix / prefix / case; audience: client / list with / "
             "extra / list without / other / prefix / number / absent; exp: future / past / just past / boundary; email_verified: true / absent / false / string; claim "
@@ -189,7 +189,7 @@ PROPS["C08"] = {
             "+ identities with odd addresses (mixed case, sub-domains, look-alike suffixes, several @, none at all), groups that are pieces of a comma-bearing name + a history: 2-5 logins (OIDC or htpasswd form), requests, then 1-3 "
             "RULE CHANGES - the e-mails file rewritten (new set, one entry removed, emptied, comments only; optionally a malformed version delivered first, the reload event delayed "
             "or duplicated) with the reload delivered by the SimWatcher to the real reload closure, or a replica restart with other domain / group options while jars and Redis "
-            "survive - each followed by requests of every session (upstream path or /oauth2/auth with allowed_groups / allowed_emails / allowed_email_domains constraints as comma "
+            "survive - each followed by requests of every session (in Redis worlds 30% of the refusals happen while the store cannot delete: the cookie is cleared all the same) (upstream path, /oauth2/userinfo - identity disclosed only to a session the current rules admit - or /oauth2/auth with allowed_groups / allowed_emails / allowed_email_domains constraints as comma "
             "lists, repeated parameters, empty items); oracle = independent rule semantics: served <=> the currently LOADED rules admit the session, refusal = 401/403 + cookie "
             "deletion; non-trivial = at least one session was refused after a rule change; distinct = distinct history + event hash",
     "level_text": "seeded search over rule-change histories (file reloads through the watcher seam, restarts) between login and later requests",
@@ -199,8 +199,8 @@ PROPS["C08"] = {
 PROPS["C18"] = {
     "level": "exploration",
     "quick_runs": 1600, "quick_budget_s": 150, "thorough_budget_s": 600,
-    "rule": "one run = one world (Secure, HttpOnly, SameSite '' / lax / strict / none, Path, 0-3 nested cookie domains incl. leading dot and with port, cookie name length 1-256 "
-            "and __Secure- prefix, reverse-proxy mode, csrf-per-request, store, session size) x 1-3 request hosts (exact, sub-domain, deeper, sibling, unrelated, with port, upper case, "
+    "rule": "one run = one world (Secure, HttpOnly, SameSite '' / lax / strict / none, Path, 0-3 nested cookie domains incl. leading dot, with port and a domain configured twice, cookie name length 1-256 "
+            "and __Secure- prefix, reverse-proxy mode, csrf-per-request, store, session size) x 1-3 request hosts (exact, sub-domain, deeper, sibling, unrelated, with port, upper case, IPv4 / IPv6 literals with and without port, "
             "suffix look-alike, optionally via X-Forwarded-Host) driven through start, callback, authenticated request, refresh to another size, a request on another host, sign-out "
             "and five error paths, plus (cookie store, 35% of worlds) 10 logins whose session size lies within -48..+16 of the split threshold of that world (bisection); the M-attrs monitor (which also runs on every response of every other property's runs) checks every Set-Cookie of the proxy's cookie family; every "
             "deletion is applied to the browser jar and must remove the cookie it names; non-trivial = at least one deletion was judged; distinct = distinct configuration x hosts + event hash",
@@ -214,7 +214,7 @@ PROPS["C15"] = {
     "rule": "one run = one world (0-15 skip-auth rules drawn from anchored / unanchored / method-qualified / negated / lower-case-method / legacy patterns, 0-22 trusted networks in a seeded configuration order "
             "incl. nested ones sharing a base address, overlapping, single hosts, IPv6, IPv4-mapped prefixes, preflight, reverse-proxy mode) + 150-299 unauthenticated requests over a path alphabet of 25 segments "
             "(equal to, prefix of, suffix of, containing rule fragments) x 11 methods (incl. lower / mixed case, OPTIONS) x 15 queries that embed rule-like fragments, 30% of them repeated "
-            "with another query (twin; half of the twins also carry a credential that authenticates nobody authorised: a verifying bearer token of an unauthorised user, a garbage cookie / Basic / Bearer value, a spoofed identity header), in reverse-proxy worlds with X-Forwarded-Uri as the effective URI (half of them with a rule-like fragment before or after the query) + peer addresses = first / last / neighbours of every configured network, a "
+            "with another query (twin; half of the twins also carry a credential that authenticates nobody authorised: a verifying bearer token of an unauthorised user, a garbage cookie / Basic / Bearer value, a spoofed identity header; in the third of the worlds that keep sessions in Redis, 35% of the requests are repeated with a VALID ticket cookie, the store healthy or out of reach: the decision is the one made without the cookie), in reverse-proxy worlds with X-Forwarded-Uri as the effective URI (half of them with a rule-like fragment before or after the query) + peer addresses = first / last / neighbours of every configured network, a "
             "strided /22 + /24 + /120 universe and 22 hand-picked boundary addresses, each written as IPv4, ::ffff:a.b.c.d and ::ffff:hhhh:hhhh (via the configured real-client-IP "
             "header in reverse-proxy mode); oracle: reached upstream / 202 <=> independent rule evaluation on (method, path) or preflight or net.IPNet.Contains(peer); "
             "non-trivial = at least one request was exempted; distinct = distinct rule/network set + event hash",
@@ -254,11 +254,11 @@ PROPS["C07"] = {
 PROPS["C17"] = {
     "level": "exploration",
     "quick_runs": 500, "quick_budget_s": 150, "thorough_budget_s": 600,
-    "rule": "one run = one world (1-10 upstream rules from: catch-all, nested prefixes /api/ and /api/v2/, sibling /apix/, exact path, base path, four rewrite rules with capture "
+    "rule": "one run = one world (1-10 upstream rules from: catch-all, nested prefixes /api/ and /api/v2/, sibling /apix/, exact path, an exact path below a prefix upstream (requests with and without trailing slash), base path, four rewrite rules with capture "
             "groups incl. a longer overlapping pattern, a group swap and a target with a query of its own, a static upstream, two file:// upstreams (prefix and rewrite) over a small directory tree with a marker file outside it; pass-host-header per rule; raw-path proxying on/off; four FakeUpstream hosts) + a real login "
             "+ 40-79 authenticated requests: 24 prefixes (10 of them with an encoded slash or letter right at a prefix boundary) x 0-3 segments from an alphabet with %2F, %2e, %20, +, ;, %-encoded and raw UTF-8, %3F, %25 x 14 queries (two re-using the rule's parameter names) x 9 methods x 0-5 "
             "headers (repeated, lower-case, unusual names, empty values, hop-by-hop) x bodies 0 B - 1 MiB fixed or chunked with seeded chunk sizes; the upstream answers with a seeded "
-            "status (14 codes), headers (Set-Cookie x2, Location, repeated fields, WWW-Authenticate) and body up to 70 kB, or is faulted (refuse / reset / hang, 8%), in 12% preceded by 103 Early Hints; three paths that percent-decode to the ping / ready paths of the pre-auth chain; the real "
+            "status (14 codes), headers (Set-Cookie x2, Location, repeated fields, WWW-Authenticate) and body up to 70 kB, or is faulted (refuse / reset / hang / the answer breaks off in the middle of its body - the client must see an aborted connection, never half a body as a complete response; 8%), in 12% preceded by 103 Early Hints; three paths that percent-decode to the ping / ready paths of the pre-auth chain; the real "
             "http.Transport writes to a net.Pipe and a real http.Server parses it; oracle: exactly the upstream named by an independent longest-prefix / longest-pattern model (file upstreams: the named file byte for byte, 20 traversal spellings never yield the outside file), "
             "request-target byte-equal (rewrite rules: path per rule, query compared as parsed values), method, body hash, Host, every end-to-end header modulo list combination, no "
             "undocumented additions; response status, headers and body hash relayed; faults => 502; non-trivial = at least one request was proxied; distinct = rule set + event hash",
@@ -270,12 +270,12 @@ PROPS["C17"] = {
 PROPS["C06"] = {
     "level": "exploration",
     "quick_runs": 160, "quick_budget_s": 200, "thorough_budget_s": 600,
-    "rule": "one run = one world (14 whitelist classes: none, exact, leading dot, *., with port, :*, IPv6, several, wildcard+any-port, and five multi-entry lists mixing host-only and host:port entries in both orders; reverse-proxy, encode-state, provider button, "
+    "rule": "one run = one world (14 whitelist classes: none, exact, leading dot, *., with port, :*, IPv6, several, wildcard+any-port, and five multi-entry lists mixing host-only and host:port entries in both orders; reverse-proxy, encode-state, provider button, 15% GitLab flavour of the provider, "
             "htpasswd) + one chunk of 1500 strings of the COMPLETE enumeration of token sequences up to length 3 (quick; 4 in thorough) over a 46-token adversarial grammar (/, \\, ., .., "
             "%2e, %2f, %5c, %09, %00, TAB, LF, CR, SP, VT, FF, NUL, U+00A0, U+2028, @, :, #, ?, ;, scheme tokens in several cases incl. javascript: data: ws: ftp:, whitelisted host, "
             "sub-domain, suffix and prefix look-alikes, IP literals, ports) + 300 random sequences of 4-12 tokens + 32 classics + 108 host x port products + 110 compositions (innocent same-site prefix, then fragment / query / parameter / dot segments, then a classic); every string goes through sign_out?rd and "
             "X-Auth-Request-Redirect; a seeded sample of 120 (600 thorough) through the htpasswd form login, the sign-in and error pages (hidden rd, form action), start?rd -> IdP -> "
-            "callback, a protected path / X-Forwarded-Proto/Host/Uri in reverse-proxy mode -> callback, and the redirect part of the state tampered after start (nonce intact, with and "
+            "callback, a protected path / X-Forwarded-Proto/Host/Uri in reverse-proxy mode -> callback, forged callback links followed by a browser that is signed in already (no CSRF cookie), and the redirect part of the state tampered after start (nonce intact, with and "
             "without encode-state); oracle: every Location / action / hidden rd resolved by an independent WHATWG-style resolver must be the request host over http(s) or pass an "
             "independent implementation of the whitelist rules; login redirects must target the IdP authorization endpoint; plain same-site targets survive byte for byte; "
             "non-trivial = a target other than '/' was produced; distinct = (whitelist class, chunk, mode) + event hash",
@@ -293,7 +293,7 @@ PROPS["C19"] = {
             "150-299 requests built by grammar mutation at the raw text level: 15 methods x 32 request-targets (asterisk, absolute form, bad escapes, NUL, 6000-byte path) x 20 queries "
             "(state / code / rd / allowed_* shapes, semicolons, 9 kB values) x 10 Host values x 9 peer addresses x 16 cookie shapes (empty, separators only, 9 kB, truncated genuine, "
             "out-of-range timestamps, VALIDLY SIGNED cookies / tickets / split parts with 12 malformed payload classes) x CSRF cookie shapes x 22 Authorization shapes (malformed Basic / "
-            "Bearer, JWT-shaped garbage, validly signed tokens with wrongly typed claims) x 33 forwarding / misc header values x 8 bodies; parsed by http.ReadRequest; oracle: no panic "
+            "Bearer, JWT-shaped garbage, validly signed tokens with wrongly typed claims) x 33 forwarding / misc header values x 8 bodies; in Redis worlds 8% of the requests meet a session store in trouble for the whole request (errors, lost replies, missing / foreign / truncated / corrupted values); parsed by http.ReadRequest; oracle: no panic "
             "(recover around the direct ServeHTTP call) and a 2xx-5xx status; the same monitor runs on every request of every other property's runs, also under store / IdP faults; "
             "non-trivial = at least one request reached a handler; distinct = configuration + event hash",
     "level_text": "seeded grammar mutation of whole requests x configuration swarm x all session sources; panic monitor on all traffic of all runs",
